@@ -325,7 +325,7 @@ func (b *band) GetRX1DataRateIndex(uplinkDR, rx1DROffset int) (int, error) {
 }
 
 func (b *band) GetTXPowerOffset(txPower int) (int, error) {
-	if txPower > len(b.txPowerOffsets)-1 {
+	if txPower < 0 || txPower > len(b.txPowerOffsets)-1 {
 		return 0, errors.New("lorawan/band: invalid tx-power")
 	}
 	return b.txPowerOffsets[txPower], nil
@@ -350,7 +350,7 @@ func (b *band) AddChannel(frequency uint32, minDR, maxDR int) error {
 }
 
 func (b *band) GetUplinkChannel(channel int) (Channel, error) {
-	if channel > len(b.uplinkChannels)-1 {
+	if channel < 0 || channel > len(b.uplinkChannels)-1 {
 		return Channel{}, errors.New("lorawan/band: invalid channel")
 	}
 
@@ -393,14 +393,14 @@ func (b *band) GetUplinkChannelIndexForFrequencyDR(frequency uint32, dr int) (in
 }
 
 func (b *band) GetDownlinkChannel(channel int) (Channel, error) {
-	if channel > len(b.downlinkChannels)-1 {
+	if channel < 0 || channel > len(b.downlinkChannels)-1 {
 		return Channel{}, errors.New("lorawan/band: invalid channel")
 	}
 	return b.downlinkChannels[channel], nil
 }
 
 func (b *band) DisableUplinkChannelIndex(channel int) error {
-	if channel > len(b.uplinkChannels)-1 {
+	if channel < 0 || channel > len(b.uplinkChannels)-1 {
 		return errors.New("lorawan/band: channel does not exist")
 	}
 	b.uplinkChannels[channel].enabled = false
@@ -408,7 +408,7 @@ func (b *band) DisableUplinkChannelIndex(channel int) error {
 }
 
 func (b *band) EnableUplinkChannelIndex(channel int) error {
-	if channel > len(b.uplinkChannels)-1 {
+	if channel < 0 || channel > len(b.uplinkChannels)-1 {
 		return errors.New("lorawan/band: channel does not exist")
 	}
 	b.uplinkChannels[channel].enabled = true
@@ -592,7 +592,7 @@ func (b *band) GetEnabledUplinkChannelIndicesForLinkADRReqPayloads(deviceEnabled
 	for _, c := range deviceEnabledChannels {
 		// make sure that we don't exceed the chMask length. in case we exceed
 		// we ignore the channel as it might have been removed from the network
-		if c < len(chMask) {
+		if c >= 0 && c < len(chMask) {
 			chMask[c] = true
 		}
 	}
